@@ -17,3 +17,9 @@ open TFVerif.C08
 #print axioms validate_iff
 #print axioms validate_rejects
 #print axioms validate_rejects_flat
+#print axioms row_partition_law_ragged
+#print axioms col_partition_law_ragged
+#print axioms eq_iff_ragged
+#print axioms eq_ragged_cells
+#print axioms lookup_correct_ragged
+#print axioms validate_iff_ragged
